@@ -283,6 +283,20 @@ impl GwWorld {
                 env.ledger().set_sequence_number(cur + pu32(t[1]));
                 ("ok".into(), String::new())
             }
+            "probe_extra" => {
+                // probe_extra <addresses> <tokens>: every exported function of the contract that the model does not know is
+                // called without any authorisation (none exists on the unchanged tree apart from the `todo!()` stubs of the
+                // token); whatever it does, the modelled state must not change — the following queries show it
+                let known: [&str; 11] = ["__constructor", "call_contract", "is_message_approved", "is_message_executed", "validate_message", "approve_messages", "rotate_signers", "epoch", "epoch_by_signers_hash", "signers_hash_by_epoch", "validate_proof"];
+                let addrs: Vec<Address> = t[1].split(',').filter(|x| !x.is_empty() && *x != "-").map(|x| Addr::parse(x).sdk(&env)).collect();
+                let toks: Vec<(Address, i128)> = t[2].split(',').filter(|x| !x.is_empty() && *x != "-").map(|x| (Addr::parse(x).sdk(&env), 1i128)).collect();
+                let mut names = vec![];
+                if let Some(c) = self.gw.clone() {
+                    names = probe_unknown_entry_points(&env, &c, "/repo/contracts/axelar-gateway/src/contract.rs", &known, &addrs, &toks);
+                }
+                let _ = self.events();
+                ("ok".into(), format!("probed={}", names.join(",")))
+            }
             "gw.new" => {
                 let addr = Addr::parse(t[1]).sdk(&env);
                 let owner = Addr::parse(t[2]).sdk(&env);
